@@ -159,8 +159,39 @@ def compare(env, defaults, user, sfile, cli_args, cli_flat, out, drv, key, rel=F
             break
 
 
+def real_option_table():
+    """the option table read off the REAL config_template() (regenerated from source on every run)"""
+    import confuse
+    from cminx.config import config_template
+    def ty(t):
+        if t is bool: return 'bool'
+        if isinstance(t, str): return 'str'
+        if isinstance(t, confuse.StrSeq): return 'strSeq'
+        if isinstance(t, confuse.Optional):
+            sub = t.subtemplate
+            if isinstance(sub, confuse.String): return 'optStr'
+            if isinstance(sub, confuse.Filename): return 'optFilename'
+            if isinstance(sub, confuse.TypeTemplate) or sub is list: return 'optList'
+            return 'optional:' + type(sub).__name__
+        if isinstance(t, confuse.TypeTemplate): return 'dict'
+        return type(t).__name__
+    out = {}
+    for tpl in (config_template(False), config_template(True)):
+        for sec, body in tpl.items():
+            if isinstance(body, dict):
+                for k, v in body.items(): out[f"{sec}.{k}"] = ty(v)
+            else: out[sec] = ty(body)
+    return out
+
+
 def config_suite(seed, tier, out, drv):
     defaults = load_defaults()
+    # the model's option table must be the template of the code as it is now
+    mt = drv.run([dict(op='optiontable')])[0]; rt = real_option_table()
+    out.traces_validated += 1
+    if mt != rt:
+        diff = {k: (mt.get(k), rt.get(k)) for k in set(mt) | set(rt) if mt.get(k) != rt.get(k)}
+        out.disagreements.append(dict(suite='config', key='option-table', detail=dict(kind='option table (name -> template) of config_template', model_vs_real=diff)))
     g = random.Random(f"C16/{seed}")
     with impl.Sandbox() as sb:
         env = Env(sb)
